@@ -151,7 +151,6 @@ func errEdge(b *ssa.BasicBlock, i int) bool {
 	return false
 }
 
-
 // isEnterScope / isExitScope: the parser's scope bracket by signature, not by name:
 // enter: func (p *Parser) _(*Scope, bool) *Scope      exit: func (p *Parser) _(*Scope)
 func isScopePtr(t types.Type) bool {
@@ -302,7 +301,7 @@ func runLevel(r *core.Run) {
 				bad+": after such a construct the depth budget leaks (long flat programs hit the nesting limit) or the guard is weakened (deep nesting is no longer refused)")
 		}
 	}
-	r.Floor("nesting counter increments", sites, 4)
+	r.Floor("nesting counter increments", sites, 2)
 }
 
 // ------------------------------------------------------------------ R-SCOPE
@@ -396,7 +395,7 @@ func runScope(r *core.Run) {
 			r.Check(bad == "", key, pos, "entered and exited exactly once on every non-error path", bad+": identifiers parsed afterwards are resolved in a stale scope")
 		}
 	}
-	r.Floor("enterScope sites", sites, 12)
+	r.Floor("enterScope sites", sites, 6)
 }
 
 // -------------------------------------------------------------------- R-CTX
@@ -465,7 +464,7 @@ func runCtx(r *core.Run) {
 			r.Check(bad == "", key, pos, "", bad+": the grammar parameter leaks into everything parsed after this construct")
 		}
 	}
-	r.Floor("context save/restore pairs", saves, 24)
+	r.Floor("context save/restore pairs", saves, 10)
 }
 
 // ---------------------------------------------------------------- R-DECLCHK
@@ -548,7 +547,7 @@ func runDeclChk(r *core.Run) {
 			}
 		}
 	}
-	r.Floor("Declare call sites", sites, 10)
+	r.Floor("Declare call sites", sites, 5)
 }
 
 func mustInt(s string) int64 {
